@@ -25,6 +25,12 @@ SPECIALS = {
 }
 
 
+#: floats that are out of range for some of the types a cast may be declared to (and in range for others)
+OOR_VALUES = [300.0, -1.0, 256.0, -129.0, 70000.0, -40000.0, 65536.0, 5e9, -3e9, 4294967296.0, 1e10, -2147483649.0, 2147483648.0,
+              1e15, 9.3e18, -9.3e18, 1e19, 2e19, 1e39, -1e300, 3.5e38, float('nan'), float('inf'), float('-inf'), 255.9, -0.9, 127.5,
+              -128.9, 65535.5, 4294967295.5]
+
+
 def _special_values(dt: np.dtype):
     k = dt.kind + str(dt.itemsize)
     if k in SPECIALS:
@@ -64,6 +70,14 @@ def make_array(a: dict) -> np.ndarray:
         sv = _special_values(dt)
         off = int(fill.get('seed', 0))
         vals = sv[(np.arange(n) + off) % len(sv)]
+    elif kind == 'oor':
+        # ordinary floats with, at the flat positions `bad_at`, values beyond the range of the narrower integer / float
+        # types (of moderate magnitude: the conversions numpy performs without any floating-point flag among them)
+        vals = (np.arange(n, dtype=np.float64) % 50 + 1.0)
+        for pos, k in fill.get('bad_at', []):
+            vals[pos % n] = OOR_VALUES[k % len(OOR_VALUES)]
+        with np.errstate(over='ignore'):
+            vals = vals.astype(native)
     elif kind == 'lin':
         start, step = fill.get('start', 0), fill.get('step', 1)
         vals = (np.arange(n, dtype=np.float64) * step + start)
@@ -232,7 +246,10 @@ def build(spec: dict) -> Built:
         else:
             b.df = DLISFile(**kw)
         for lfs in spec.get('lfs', [{}]):
-            if lfs.get('as_object'):
+            if lfs.get('share_header_of') is not None:
+                # the FileHeaderItem of an earlier logical file handed in again (public API: add_logical_file(file_header=...))
+                b.lfs.append(b.df.add_logical_file(file_header=b.lfs[lfs['share_header_of']].file_header))
+            elif lfs.get('as_object'):
                 # the user hands in their own FileHeaderItem (public API: add_logical_file(file_header=...))
                 from dliswriter import eflr_types
                 fh = eflr_types.FileHeaderItem(lfs.get('fh_id', 'FILE-HEADER'), parent=eflr_types.FileHeaderSet(),
